@@ -3,6 +3,7 @@ import PilotaModel.TGen.AsyncC
 import PilotaModel.TGen.Decode
 import PilotaModel.TGen.Keep
 import PilotaModel.TGen.Mem
+import PilotaModel.Build.Lower
 import Driver.Thrift
 /-
   Line-protocol verbs for emitted Thrift code (harness/genrun).  Documents are registered by
@@ -76,7 +77,28 @@ def answer (docs : Docs) (items : List Sexp) : Option (Docs × String) := do
   | "doc" =>
     let name ← items[1]? >>= Sexp.asAtom
     let d ← items[2]? >>= Doc.ofSexp
-    pure ((name, d) :: docs.filter (·.1 != name), "ok")
+    -- the default literals, lowered by the model of lit_into_ty: must agree with the values the schema line carries
+    match (items[3]? : Option Sexp) with
+    | none => pure ((name, d) :: docs.filter (·.1 != name), "ok")
+    | some (Sexp.list (Sexp.atom "lits" :: ls)) =>
+      let (d', bad) := ls.foldl (init := (d, ([] : List String))) fun (acc : Doc × List String) l =>
+        match l with
+        | Sexp.list [Sexp.atom sn, idS, litS] =>
+          match idS.asInt, Pilota.Build.Lit.ofSexp litS, acc.1.find sn with
+          | some id, some lit, some (.struct fs) =>
+            match fs.find? (·.id == id) with
+            | some fl =>
+              match Pilota.Build.lowerLit d 200 fl.ty lit with
+              | some v =>
+                let same := match fl.dflt with | some dv => shown dv == shown v | none => false
+                let fs' := fs.map fun x => if x.id == id then { x with dflt := some v } else x
+                (acc.1.map (fun p => if p.1 == sn then (p.1, Def.struct fs') else p), if same then acc.2 else acc.2 ++ [s!"{sn}.{id}:{shown v}"])
+              | none => (acc.1, acc.2 ++ [s!"{sn}.{id}:no-arm"])
+            | none => (acc.1, acc.2 ++ [s!"{sn}.{id}:no-field"])
+          | _, _, _ => (acc.1, acc.2 ++ ["unreadable"])
+        | _ => (acc.1, acc.2 ++ ["unreadable"])
+      pure ((name, d') :: docs.filter (·.1 != name), if bad.isEmpty then "ok" else "lower-mismatch " ++ " ".intercalate bad)
+    | _ => none
   | "gbs" =>
     let dn ← items[1]? >>= Sexp.asAtom
     let ty ← items[2]? >>= Sexp.asAtom
